@@ -1,0 +1,8 @@
+//go:build verif
+
+// Contracts for package highlight (read by /verif/gocv; comment-only effect with the verif tag off).
+
+package highlight
+
+// C19: a fragment of its stored value: 0 <= Start <= End <= len(Orig). The formatters rely on it.
+//@ spec fragOK(f *Fragment) bool = f != nil && 0 <= f.Start && f.Start <= f.End && f.End <= len(f.Orig)
